@@ -84,13 +84,13 @@ Profiles ==
          {Prof("adds", Full, 4, {}, 0, {}, {}, 0, 0),
           Prof("bulk", Small, 3, {}, 0, {"FromListing", "AddMany"}, Small, 1, 2)}
     [] Prop = "C10" /\ Tier = "quick" ->
-         {Prof("ops", {}, 0, {}, 0, AllTail, C10Alpha, 3, 3)}
+         {Prof("ops", {}, 0, {}, 0, AllTail \ {"New", "ConcatBB", "AddMany"}, C10Alpha \ {d1, bn}, 3, 3)}
     [] Prop = "C10" /\ Tier = "thorough" ->
          {Prof("ops", {}, 0, {}, 0, AllTail, C10Alpha, 4, 4)}
     [] Prop = "C11" /\ Tier = "quick" ->
-         {Prof("pairs", Small, 2, Small, 2, {"ConcatAB", "AddAssignAB"}, {}, 1, 1)}
+         {Prof("pairs", Tiny, 2, Tiny, 2, {"ConcatAB", "AddAssignAB"}, {}, 1, 1)}
     [] Prop = "C11" /\ Tier = "thorough" ->
-         {Prof("pairs", Small, 3, Small, 3, {"ConcatAB", "AddAssignAB"}, {}, 1, 1)}
+         {Prof("pairs", Small, 3, Small, 2, {"ConcatAB", "AddAssignAB"}, {}, 1, 1)}
 
 ----------------------------------------------------------------------------
 VARIABLES prof, phase, hist
@@ -104,7 +104,7 @@ Count(sec) == Cardinality({n \in DOMAIN hist : hist[n].sec = sec})
 Proj(R, r) ==
   IF R[r].opaque THEN [opaque |-> TRUE]
   ELSE [listing |-> Ids(Listing(R[r])), used |-> R[r].used, len |-> LenOf(R[r]), excl |-> R[r].excl,
-        eq |-> (Known(R["A"]) /\ Known(R["B"]) /\ EqProg(R["A"], R["B"]))]
+        eq |-> IF Known(R["A"]) /\ Known(R["B"]) THEN Some(EqProg(R["A"], R["B"])) ELSE None]
 
 Do(o, sec) == /\ Step(o)
               /\ hist' = Append(hist, [o |-> o, sec |-> sec, post |-> Proj(regs', o.dst)])
@@ -123,21 +123,18 @@ K(r) == Known(regs[r])
 
 \* adds in the tail section go to A; B is reached through the other operations
 TAdd      == InTail("Add") /\ K("A") /\ \E i \in prof.alphaT : Do([ev |-> "Add", dst |-> "A", i |-> i], "T")
-TAddMany  == InTail("AddMany") /\ K("A") /\
-             \/ Do([ev |-> "AddMany", dst |-> "A", is |-> Listing(regs["A"])], "T")      \* re-add everything
-             \/ \E i, j \in prof.alphaT : /\ IsDef(i) /\ i.k = j.k /\ i.key = j.key /\ i # j   \* a redefinition inside one call
+TAddManyAll  == InTail("AddMany") /\ K("A") /\ Do([ev |-> "AddMany", dst |-> "A", is |-> Listing(regs["A"])], "T")  \* re-add everything
+TAddManyPair == InTail("AddMany") /\ K("A") /\
+                \E i, j \in prof.alphaT : /\ IsDef(i) /\ i.k = j.k /\ i.key = j.key /\ i # j   \* a redefinition inside one call
                                          /\ Do([ev |-> "AddMany", dst |-> "A", is |-> <<i, j>>], "T")
-TConcat   == /\ K("A") /\ K("B")
-             /\ \/ InTail("ConcatAB") /\ Do([ev |-> "Concat", dst |-> "A", a |-> "A", b |-> "B"], "T")
-                \/ InTail("ConcatBA") /\ Do([ev |-> "Concat", dst |-> "A", a |-> "B", b |-> "A"], "T")
-                \/ InTail("ConcatBB") /\ Do([ev |-> "Concat", dst |-> "B", a |-> "B", b |-> "B"], "T")
-TAddAssign == /\ K("A") /\ K("B")
-              /\ \/ InTail("AddAssignAB") /\ Do([ev |-> "AddAssign", dst |-> "A", b |-> "B"], "T")
-                 \/ InTail("AddAssignBA") /\ Do([ev |-> "AddAssign", dst |-> "B", b |-> "A"], "T")
+TConcat   == phase = "T" /\ \E c \in {<<"ConcatAB", "A", "A", "B">>, <<"ConcatBA", "A", "B", "A">>, <<"ConcatBB", "B", "B", "B">>} :
+                InTail(c[1]) /\ K(c[3]) /\ K(c[4]) /\ Do([ev |-> "Concat", dst |-> c[2], a |-> c[3], b |-> c[4]], "T")
+TAddAssign == phase = "T" /\ \E c \in {<<"AddAssignAB", "A", "B">>, <<"AddAssignBA", "B", "A">>} :
+                InTail(c[1]) /\ K(c[2]) /\ K(c[3]) /\ Do([ev |-> "AddAssign", dst |-> c[2], b |-> c[3]], "T")
 TClone    == InTail("Clone") /\ K("A") /\ Do([ev |-> "Clone", dst |-> "B", a |-> "A"], "T")
 TCloneWithoutBody ==
-             \/ InTail("CloneWithoutBody") /\ K("A") /\ Do([ev |-> "CloneWithoutBody", dst |-> "B", a |-> "A"], "T")
-             \/ InTail("CloneWithoutBodySelf") /\ K("A") /\ Do([ev |-> "CloneWithoutBody", dst |-> "A", a |-> "A"], "T")
+             phase = "T" /\ \E c \in {<<"CloneWithoutBody", "B">>, <<"CloneWithoutBodySelf", "A">>} :
+                InTail(c[1]) /\ K("A") /\ Do([ev |-> "CloneWithoutBody", dst |-> c[2], a |-> "A"], "T")
 \* the generated programs have no placeholders: the resolved body is the body
 TResolve  == InTail("Resolve") /\ \E r \in Regs : K(r) /\ Do([ev |-> "Resolve", dst |-> r, body |-> regs[r].body], "T")
 TFromListing == InTail("FromListing") /\ K("A") /\
@@ -153,7 +150,7 @@ TSupplied == InTail("Supplied") /\ K("A") /\
 Finish == /\ phase = "T" /\ Count("T") >= prof.minT /\ (Count("T") = prof.maxT \/ prof.minT < prof.maxT)
           /\ phase' = "done" /\ UNCHANGED <<regs, prof, hist>>
 
-MCNext == AddA \/ ToB \/ AddB \/ ToT \/ TAdd \/ TAddMany \/ TConcat \/ TAddAssign \/ TClone \/ TCloneWithoutBody
+MCNext == AddA \/ ToB \/ AddB \/ ToT \/ TAdd \/ TAddManyAll \/ TAddManyPair \/ TConcat \/ TAddAssign \/ TClone \/ TCloneWithoutBody
           \/ TResolve \/ TFromListing \/ TFilter \/ TNew \/ TSupplied \/ Finish
 MCSpec == MCInit /\ [][MCNext]_mcvars
 
